@@ -220,6 +220,9 @@ def run(pid, tier, seed, replay=None):
         # ... and pipelines run through capture()/communicate() whose k-th command cannot be started
         pscs += [x for x in api_scen.fam_pipeline_fail(seed, False) if x["term"] in ("capture", "communicate")
                  and (x.get("noisy") or x.get("stream"))]
+        # ... and captures beside a thread that keeps starting unrelated programs (the kernel picks the interleavings)
+        pscs += [{"id": "capstress%d" % j, "kind": "capstress", "class": "capstress", "rounds": 30 if tier == "thorough" else 12,
+                  "n": 3 + j % 2, "detached": False} for j in range(4 if tier == "thorough" else 2)]
         presults, pstates, pblocks, pnote = c_api.run_api(pid, tier, seed, pscs, "C01pl")
         pnew, pknown, pothers, _, _ = c_api.classify(pid, pscs, presults, pblocks, PREFIX[pid], "api")
         uniq += pnew
